@@ -83,6 +83,11 @@ check("C17", "model_checking",
       "In-memory directory in atomic mode (single writer). 'For all N' is decided up to the stated N. Three small-N exceedances of the entries bound (n = 3, 4, 12) are genuine but benign consequences of the policy and are listed as known findings; every other n is checked.",
       "exhaustive enumeration of size vectors on the real chooser + exhaustive per-step checking of workload histories on the real Stack", "DESIGN.md 6/C17", "autocompact")
 
+check("C18", "fault_enumeration",
+      "Deviation-bounded corruption of a corpus of valid tables, one per distinct layout the writer produces (both versions, padded/unaligned, refs/logs/both, 0-2 index levels, object index): 0 deviations = the table; 1 deviation = EVERY offset x a 14-value alphabet (thorough: all 255 other values), every truncation length, every one-byte insertion and deletion, and every offset x value inside the inflated payload of a final log block (re-deflated); 2 deviations = all pairs of substitutions over structural bytes (block headers, restart tables, first-record varints, footer positions). The footer CRC is repaired and header edits mirrored into the footer whenever the edit touches them (both variants are run). Each mutant goes through NewReader, full ref and log scans, seeks, and RefsFor via the library's own ByteBlockSource; every call must return: no panic (attributed to its innermost reftable frame), no hang (deterministic read/step budgets), no unbounded allocation (per-input allocation budget; workers under an address-space limit so that a fatal out-of-memory is attributed to the mutant).",
+      "'For all byte strings' is decided for all strings within one edit (two structural edits) of the corpus. Coverage-guided fuzzing, which the property text mentions, is sampling - a different family - and is not used. The enumerated objects are corruptions, hence fault_enumeration.",
+      "exhaustive enumeration of 1- and 2-edit corruptions of a layout-covering corpus, driven through every read path of the real reader", "DESIGN.md 6/C18", "corrupt")
+
 ALL = [f"C{n:02d}" for n in range(1, 20)]
 NOT_YET = "check not built yet in this working session (design in DESIGN.md section 6); will be claimed once it runs"
 
@@ -105,6 +110,8 @@ manifest = {
          "kind_free_text": "sequential-history engine: explicit-state search over operation sequences on real Stack handles in atomic mode against reference models (internal/hist is shared with C14)"},
         {"name": "autocompact", "path": "harness/autocompact", "serves_properties": ["C17"],
          "kind_free_text": "exhaustive size-vector enumeration on the real segment chooser; workload histories on the real Stack checked after every Add"},
+        {"name": "corrupt", "path": "harness/corrupt", "serves_properties": ["C18"],
+         "kind_free_text": "deviation-bounded corruption enumeration over a corpus of writer-produced tables; workers under ulimit -v with per-mutant markers"},
         {"name": "crashseq", "path": "harness/crashseq", "serves_properties": ["C06"],
          "kind_free_text": "engine E1 in sequential mode: every filesystem-call boundary of a call is a crash point; survivor program on the real code"},
     ],
